@@ -237,12 +237,12 @@ def run(ctx):
     exe = ctx.build_harness("simplestr", "asan")
     tcfg = ctx.write_cfg("Trace_SimpleStr", TRACE % {"spec": "TSpec", "tail": "INVARIANT TInv\nPOSTCONDITION Accepted"})
     pcfg = ctx.write_cfg("Predict_SimpleStr", TRACE % {"spec": "PSpec", "tail": "INVARIANT Predict"})
-    harness = lambda s, l: ctx.run([exe, s, l], timeout=900)
+    harness = lambda s, l: ctx.run([exe, s, l], timeout=20 if quick else 240)    # deadline: a hang of the real code is a divergence
 
     if ctx.replay:
         rp = json.load(open(ctx.replay))
         ex = [l.split("\t") for l in rp["script"]]
-        conform(ctx, "replay", [ex], harness, "Trace_SimpleStr", tcfg, pcfg, key_of, meta=rp.get("meta"))
+        conform(ctx, "replay", [ex], harness, "Trace_SimpleStr", tcfg, pcfg, key_of, meta=rp.get("meta"), env={"JAVA_TOOL_OPTIONS": "-Xss256m"})
         return ctx.finish("replay of one recorded execution", 1)
 
     lat = dict(LATTICE["quick" if quick else "thorough"])
@@ -258,7 +258,9 @@ def run(ctx):
 
     def go(label, execs):
         nonlocal nexec
-        for lab in conform_all(ctx, label, execs, harness, "Trace_SimpleStr", tcfg, pcfg, key_of, meta={"source": label}):
+        # long strings make the recursive textbook operators (replace, split) deep: give TLC's threads a big stack
+        for lab in conform_all(ctx, label, execs, harness, "Trace_SimpleStr", tcfg, pcfg, key_of, meta={"source": label},
+                               env={"JAVA_TOOL_OPTIONS": "-Xss256m"}, max_parts=6):
             for e in log_of(ctx, lab):
                 if e.get("ev"):
                     nontrivial.add(json.dumps({k_: v_ for k_, v_ in e.items() if k_ not in ("ev",)}, sort_keys=True))
